@@ -621,6 +621,13 @@ func c09TagIface(ctx *core.Ctx, dotu bool, thorough bool) core.Result {
 	for round := 0; round < rounds; round++ {
 		n := 1 + r.Intn(12)
 		reqchan := make(chan *go9p.Req, 64)
+		slowConsumer := round%8 == 5
+		if slowConsumer {
+			// an application that looks at its completions late, through a channel with little room: more replies
+			// arrive than the Tag and the channel can hold at once, none may be lost for that
+			n = []int{20, 33, 48}[(round/8)%3]
+			reqchan = make(chan *go9p.Req, (round/8)%2)
+		}
 		tag := s.c.TagAlloc(reqchan)
 		f := s.fid(uint32(9000 + round))
 		if round%3 == 1 {
@@ -652,6 +659,9 @@ func c09TagIface(ctx *core.Ctx, dotu bool, thorough bool) core.Result {
 			s.p.Reply(rq, s.p.Answer(rq.Msg))
 		}
 		res.Evals++
+		if slowConsumer {
+			time.Sleep(30 * time.Millisecond)
+		}
 		for i := 0; i < n; i++ {
 			select {
 			case done := <-reqchan:
@@ -659,12 +669,17 @@ func c09TagIface(ctx *core.Ctx, dotu bool, thorough bool) core.Result {
 					res.Violate("C09;tag;completion-order", fmt.Sprintf("completion %d of %d requests sharing a tag is not request %d (or carries foreign data)", i, n, i), nil)
 				}
 			case <-time.After(W):
+				if out, _, _ := s.c.VerifCounts(); out == 0 && s.p.Srv.Queued() == 0 && s.p.Cli.Queued() == 0 {
+					// nothing outstanding at the client, nothing on the wire: the completion is not late, it is lost
+					res.Violate("C09;tag;completion-lost", fmt.Sprintf("%d requests under one tag, all answered by the peer: completion %d never reached the application (consumer slow: %v)", n, i, slowConsumer), nil)
+					return res
+				}
 				res.Inconclusive = "c09: Tag completion missing"
 				return res
 			}
 		}
 		s.c.TagFree(tag)
-		res.Sig(fmt.Sprintf("tag|%v|%d|%d", dotu, n, round%3))
+		res.Sig(fmt.Sprintf("tag|%v|%d|%d|slow=%v", dotu, n, round%3, slowConsumer))
 	}
 	res.Sample(map[string]interface{}{"scenario": "tag-interface", "rounds": rounds, "dotu": dotu})
 	conservation(&res, s, 0, "tagiface")
